@@ -3,7 +3,7 @@ import random
 import collections
 import exprcheck, gen, lib
 
-TARGETS = [("const", None), ("wire", None), ("reginput", None), ("stall", 1), ("bubble", 1), ("reg_dstE", 4), ("reg_inputE", 64),
+TARGETS = [("const", None), ("regdefault", None), ("wire", None), ("reginput", None), ("stall", 1), ("bubble", 1), ("reg_dstE", 4), ("reg_inputE", 64),
            ("mem_readbit", 1), ("mem_addr", 64), ("Stat", 3), ("pc", 64)]
 
 
@@ -19,13 +19,17 @@ def program_for(ast, env, target, tw):
     """A program assigning the expression (over wires a, b of the env's widths) to a target."""
     st = ["register pP { pc : 64 = 0; }", "p_pc = P_pc + 10;"]
     need = {"Stat": "Stat = STAT_AOK;", "pc": "pc = P_pc;"}
-    if target == "const":
+    if target in ("const", "regdefault"):
         # operands are constants themselves; zero-width ones cannot be written as constants
         for n, w, v, c in env:
             if w == 0:
                 return None
             st.append("const %s = %s;" % (n, gen.const_text(v & ((1 << w) - 1), w) if w else str(v)))
-        st.append("const KT = %s;" % gen.to_text(ast))
+        if target == "const":
+            st.append("const KT = %s;" % gen.to_text(ast))
+        else:
+            # a register's initial value obeys the same rules, and must fit the register's width
+            st += ["register xY { r : %d = %s; }" % (tw, gen.to_text(ast)), "x_r = Y_r;"]
         st += list(need.values())
         return "\n".join(st) + "\n"
     for n, w, v, c in env:
@@ -95,7 +99,7 @@ def check(report, tier, seed):
                     pcases[cid] = {"hcl": text, "target": target, "tw": tw}
                     hl.append("%s front %s 0" % (cid, lib.hexs(pcases[cid]["hcl"])))
                     # unsized wires are constants in the program: visible to the always-true test
-                    env2 = [(n, w, v, w is None or target == "const") for n, w, v, c in env]
+                    env2 = [(n, w, v, w is None or target in ("const", "regdefault")) for n, w, v, c in env]
                     ml.append("%s mexpr %s %s %s" % (cid, fb, lib.hexs(gen.to_sexpr(ast)), exprcheck.env_args(env2)))
     impl = lib.run_cases(lib.build_harness("dev", feats), hl)
     model = lib.run_cases(lib.build_driver(), ml)
@@ -110,8 +114,8 @@ def check(report, tier, seed):
             continue
         if b["check"][0] == "ok":
             w = None if b["check"][1] == "u" else int(b["check"][1])
-            want = ("accept",) if wcombine(c["tw"], w) else ("reject", "MismatchedWireWidths")
-            if c["target"] == "const" and b["eval"] and b["eval"][0] == "err":
+            want = ("accept",) if wcombine(c["tw"], w) else ("reject", "MismatchedRegisterDefaultWidths" if c["target"] == "regdefault" else "MismatchedWireWidths")
+            if c["target"] in ("const", "regdefault") and b["eval"] and b["eval"][0] == "err":
                 want = ("reject", b["eval"][1][0].split("|")[0])       # constants are evaluated while building
         else:
             want = ("reject", b["check"][1][0].split("|")[0])
@@ -171,7 +175,7 @@ def check(report, tier, seed):
     report.coverage["distinct_nontrivial"] = len(set(gen.to_sexpr(c["ast"]) + exprcheck.env_args(c["env"]) for c in cases)) + len(pcases)
     report.coverage["rule"] = ("expression level: operator x width-pair grid over %s, random well-typed nestings, and nestings with exactly one injected fault "
                                "(other width, unsized, undeclared wire, misordered slice, duplicated / missing default arm): verdict, width and diagnostic "
-                               "kind against the model checker; program level: operators x width pairs assigned to a plain wire, a register input, "
+                               "kind against the model checker; program level: operators x width pairs assigned to a plain wire, a register input, a constant, a register initial value, "
                                "stall/bubble, and built-in inputs of widths 1/3/4/64, targets of width 0 included; width literals of wire and register declarations and slice bounds "
                                "at and around 128, 256, 2^16, 2^32, 2^64 (+ random multiples plus a small offset) in decimal and hex spelling: accepted iff within the limit" % exprcheck.GRID_WIDTHS)
     report.coverage["distribution"] = dict(st, **{"program_" + k2: v2 for k2, v2 in verdicts.items()})
